@@ -221,6 +221,9 @@ class Session:
 
     def concrete(self, item):
         kind = item[0]
+        if kind == "age":
+            Clock.virtual += 6.0
+            return None
         if kind == "ev":
             d = {"type": f"Ev{item[1]}"}
             if item[2] is not None:
